@@ -46,6 +46,9 @@ CHECKS = {
  "C17": dict(technique="bounded-exhaustive enumeration of programs x layouts x comment placements through the real foldingRange handler; expected folds by construction",
    text="one fold per procedure, in source order, from the line of `proc` to the line of its last token for every generated program x layout x comment-gap variant; well-formedness (start<=end, inside document, non-overlapping) for every token soup up to 3/4 tokens",
    note="line numbers from the independent text model lsptext.rs", ref="4/C17"),
+ "C05": dict(technique="bounded-exhaustive enumeration of single-token damages (delete / insert / replace over the token alphabet) on every token of every declaration of generated multi-declaration programs; differential oracle against the undamaged parse",
+   text="for every program (2..4 declarations of a pool, every type-correct order), every declaration as the damaged one, every token except the declaration keyword and every damage: sub-trees of all other declarations are unchanged (offset shifted), their symbol-table entries are unchanged up to the shift, every syntax diagnostic lies inside the damaged declaration's byte span, goto declaration inside undamaged declarations answers as before",
+   note="differential: the undamaged parse of the same implementation is the reference; damages that introduce the name of another declaration are exempt from the table/navigation comparison for that declaration (redeclaration semantics)", ref="4/C05"),
  "C06": dict(technique="bounded-exhaustive input enumeration of the real lexer against an independent reference lexer",
    text="every string over a 15/24-symbol character alphabet up to length 4/6 and every sequence of up to 3/4 lexemes x 5 separators: tiling invariant on all, kinds/values/ranges equal to the reference lexer on all lexically valid ones",
    note="trusted: reference lexer reflex.rs; bounded by alphabet and length", ref="4/C06"),
